@@ -7,7 +7,7 @@
    goroutine, syncer helper) reach each function. PARTIAL: the race detector runs that
    validate the table are sampled. *)
 From Coq Require Import String List Bool Arith.
-From LNC Require Import TablesGen Tables Lockset LocksetProofs.
+From LNC Require Import TablesGen Tables Lockset LocksetProofs LockOrder LockOrderProofs.
 Import ListNotations.
 
 (* in the current source: any two accesses to the same field, one of them a write, that two
@@ -28,6 +28,21 @@ Print Assumptions c18_lock_order_acyclic.
 Theorem c18_no_lock_order_cycle_across_calls : deadlock_pairs = [] /\ acq_closure_stable = true.
 Proof. vm_compute. split; reflexivity. Qed.
 Print Assumptions c18_no_lock_order_cycle_across_calls.
+
+(* ... in fact the whole order relation is acyclic: the locks have a rank (longest chain of order pairs below them,
+   computed from the table) that every order pair strictly increases *)
+Theorem c18_lock_order_has_a_rank : order_pairs_ranked = true.
+Proof. vm_compute. reflexivity. Qed.
+Print Assumptions c18_lock_order_has_a_rank.
+
+(* why a rank matters: in the interleaving model, threads that acquire mutexes in strictly increasing rank, release
+   only what they hold and end holding nothing never reach a deadlock (and threads taking two mutexes in opposite
+   orders do: LockOrderProofs.opposite_orders_deadlock) *)
+Theorem c18_ranked_locking_never_deadlocks : forall (rank : nat -> nat) (prog : list thread),
+  Forall (ordered rank []) prog ->
+  forall st, reachable (init_state prog) st -> ~ stuck st.
+Proof. exact ordered_no_deadlock. Qed.
+Print Assumptions c18_ranked_locking_never_deadlocks.
 
 (* no way out of a function leaves one of its mutexes locked *)
 Theorem c18_no_lock_left_held : leaked_locks = [].
